@@ -232,6 +232,9 @@ fn run(a: &Args) {
                 "aes" => aes_case(&c2, &mut m),
                 "r234" => r234_case(&c2, &mut m),
                 "r56" => r56_case(&c2, &mut m),
+                "h2b" => {
+                    m.insert("h2b".into(), rj(compute_hash_r6_algorithm_2b(&bytes_of(&c2["pw"]), &bytes_of(&c2["salt"]), &bytes_of(&c2["u"]))));
+                }
                 other => tool_error(&format!("alg {other}")),
             }
             m
